@@ -103,7 +103,7 @@ def msgacc_cell(P, A):
             from .h_payload import build_with
             root = build_with(op, tgt, carried, story_ref)
         else:
-            root = build_message({'op': op}, [], tgt, src_ids, [], addr=story_ref)
+            root = build_message({'op': op, 'long_body': P.get('long_body')}, [], tgt, src_ids, [], addr=story_ref)
     finally:
         B.Ctx.raw = False
     if P.get('pretty'):
@@ -157,6 +157,17 @@ def msgacc_cell(P, A):
                     for el in lst:
                         if [i.id for i in el.items] != ['ci0', 'ci1'] or not same(el.slug, c0):
                             sig = 'carried-story-accessors-differ'
+        if sig is None and op == 'roStorySend':
+            # the story the message carries is exposed with its body in message order
+            st = get('story')
+            want_items = [i.find('itemID').text for i in msg.base_tag.find('storyBody').findall('storyItem')]
+            want_body = [('item', c.find('itemID').text) if c.tag == 'storyItem' else ('p', c.text or '')
+                         for c in msg.base_tag.find('storyBody') if c.tag in ('storyItem', 'p')]
+            got_body = [('item', b.id) if hasattr(b, 'id') else ('p', b) for b in st.body]
+            if [i.id for i in st.items] != want_items:
+                sig = 'carried-story-items-differ'
+            elif got_body != want_body:
+                sig = 'carried-story-body-differs'
         if sig is None and msg.message_id != 2:
             sig = 'message-id'
         if sig is None and msg.ro_id != 'RO':
